@@ -16,6 +16,7 @@ import (
 	"path/filepath"
 	"sort"
 	"strings"
+	"sync"
 	"time"
 
 	"golang.org/x/mod/module"
@@ -47,6 +48,7 @@ type c19EJ struct {
 
 type c19In struct {
 	Op     string     `json:"op"`
+	Dir    string     `json:"dir,omitempty"` // "abs" (default) | "outer:<spelling>" | "root:<spelling>", @ = the directory's name
 	Prefix string     `json:"prefix_hex,omitempty"`
 	Orders [][]string `json:"orders_hex,omitempty"` // listing orders (names)
 	Es     []c19EJ    `json:"entries"`
@@ -311,8 +313,9 @@ var c19TmpSeq int
 func c19TempDir() (string, func()) {
 	os.MkdirAll(c19TmpRoot, 0o755)
 	c19TmpSeq++
-	outer, err := os.MkdirTemp(c19TmpRoot, fmt.Sprintf("t%d-", c19TmpSeq))
-	if err != nil {
+	outer := filepath.Join(c19TmpRoot, fmt.Sprintf("t%d", c19TmpSeq))
+	os.RemoveAll(outer)
+	if err := os.Mkdir(outer, 0o755); err != nil {
 		panic(err)
 	}
 	return outer, func() { os.RemoveAll(outer) }
@@ -322,7 +325,7 @@ func c19TempDir() (string, func()) {
 // Unreadable entries are dangling symbolic links. A few empty directories are added
 // (they must be invisible).
 func c19MakeTree(outer string, t []c19E) (string, error) {
-	dir := filepath.Join(outer, "r00t.dir")
+	dir := filepath.Join(outer, c19RootName)
 	if err := os.MkdirAll(dir, 0o755); err != nil {
 		return "", err
 	}
@@ -420,42 +423,111 @@ func c19GoodPrefix(p string) bool {
 	return true
 }
 
+// ---- the directory argument as the caller spells it
+//
+// DirFiles computes names from the spelling of its directory argument (Clean, then the
+// "." special case), so the same tree is hashed through absolute paths, through relative
+// paths from the parent ("@", "./@", "@/", ...; @ = the directory's name) and as "."
+// from inside.  The working directory is process-global: one case at a time.
+
+const c19RootName = "r00t.dir"
+
+var c19CwdMu sync.Mutex
+
+var c19OuterSpellings = []string{"@", "./@", "@/", "@//", "./@/.", "@/./", "x/../@"}
+var c19RootSpellings = []string{".", "./", "", "./.", ".//", "../@", "../@/"}
+
+// allowEmpty admits the spelling "": DirFiles("", p) lists the current directory but
+// HashDir("", p) opens filepath.Join("", "/rel") = "/rel" (modelled as 'outside').
+func c19DirSpec(r *rand.Rand, allowEmpty bool) string {
+	switch k := r.Intn(10); {
+	case k < 3:
+		return "abs"
+	case k < 6:
+		return "outer:" + c19OuterSpellings[r.Intn(len(c19OuterSpellings))]
+	default:
+		sp := c19RootSpellings[r.Intn(len(c19RootSpellings))]
+		if sp == "" && !allowEmpty {
+			sp = "."
+		}
+		return "root:" + sp
+	}
+}
+
+// c19InDir calls f with the directory argument that spec describes for outer/base, with
+// the working directory set accordingly (and restored afterwards).
+func c19InDir(outer, base, spec string, f func(dirArg string)) error {
+	if spec == "" || spec == "abs" {
+		f(filepath.Join(outer, base))
+		return nil
+	}
+	kind, tmpl, _ := strings.Cut(spec, ":")
+	c19CwdMu.Lock()
+	defer c19CwdMu.Unlock()
+	old, err := os.Getwd()
+	if err != nil {
+		return err
+	}
+	target := outer
+	if kind == "root" {
+		target = filepath.Join(outer, base)
+	}
+	if err := os.Chdir(target); err != nil {
+		return err
+	}
+	defer os.Chdir(old)
+	f(strings.ReplaceAll(tmpl, "@", base))
+	return nil
+}
+
+// c19Escapes: does opening filepath.Join(dirArg, x) leave the directory dirArg denotes?
+func c19Escapes(dirArg, x string) bool {
+	cd := filepath.Clean(dirArg)
+	op := filepath.Join(dirArg, x)
+	if cd == "." {
+		return filepath.IsAbs(op) || op == ".." || strings.HasPrefix(op, "../")
+	}
+	return op != cd && !strings.HasPrefix(op, strings.TrimSuffix(cd, "/")+"/")
+}
+
 type c19DirOut struct {
+	dirArg  string
 	hash    wire.Val // projected HashDir result ("outside" when an opened path leaves dir)
 	files   []string // sorted DirFiles result
 	filesOK bool
 }
 
-func c19RunDir(prefix string, t []c19E) (out c19DirOut, err error) {
+func c19RunDir(spec, prefix string, t []c19E) (out c19DirOut, err error) {
 	outer, cleanup := c19TempDir()
 	defer cleanup()
-	dir, err := c19MakeTree(outer, t)
-	if err != nil {
+	if _, err := c19MakeTree(outer, t); err != nil {
 		return out, err
 	}
-	p, _ := hx.Guard(func() {
-		files, ferr := dirhash.DirFiles(dir, prefix)
-		out.filesOK = ferr == nil
-		sort.Strings(files)
-		out.files = files
-		s, herr := dirhash.HashDir(dir, prefix, c19Hash)
-		out.hash = c19Project(s, herr)
-		for _, name := range files {
-			op := filepath.Join(dir, strings.TrimPrefix(name, prefix))
-			if op != dir && !strings.HasPrefix(op, dir+"/") {
-				out.hash = wire.Err("outside") // not modelled: depends on what surrounds dir
+	err = c19InDir(outer, c19RootName, spec, func(dir string) {
+		out.dirArg = dir
+		p, _ := hx.Guard(func() {
+			files, ferr := dirhash.DirFiles(dir, prefix)
+			out.filesOK = ferr == nil
+			sort.Strings(files)
+			out.files = files
+			s, herr := dirhash.HashDir(dir, prefix, c19Hash)
+			out.hash = c19Project(s, herr)
+			for _, name := range files {
+				if c19Escapes(dir, strings.TrimPrefix(name, prefix)) {
+					out.hash = wire.Err("outside") // not modelled: depends on what surrounds dir
+				}
 			}
+		})
+		if p {
+			out.hash = wire.Panic()
 		}
 	})
-	if p {
-		out.hash = wire.Panic()
-	}
-	return out, nil
+	return out, err
 }
 
 // HashDir/DirFiles against the documented naming, for good prefixes and "".
-func c19HashDir(prefix string, t []c19E) string {
-	out, err := c19RunDir(prefix, t)
+func c19HashDir(spec, prefix string, t []c19E) string {
+	out, err := c19RunDir(spec, prefix, t)
 	if err != nil {
 		return "" // the tree could not be created on this file system: not a verdict
 	}
@@ -472,14 +544,17 @@ func c19HashDir(prefix string, t []c19E) string {
 	want := c19Names(named)
 	sort.Strings(want)
 	if !out.filesOK || strings.Join(out.files, "\x00") != strings.Join(want, "\x00") || len(out.files) != len(want) {
-		return fmt.Sprintf("DirFiles(dir, %q) = %q, want %q", prefix, out.files, want)
+		return fmt.Sprintf("DirFiles(%q, %q) = %q, want %q", out.dirArg, prefix, out.files, want)
 	}
 	if !(c19GoodPrefix(prefix) || prefix == "") {
 		return "" // which file an odd prefix makes HashDir open is not documented
 	}
-	spec := c19Spec(want, c19Lookup(named)).String()
-	if got := out.hash.String(); got != spec {
-		return fmt.Sprintf("HashDir(dir, %q) over %q = %s, documented formula gives %s", prefix, c19Names(t), got, spec)
+	if out.dirArg == "" && prefix != "" {
+		return "" // HashDir("", prefix) opens "/rel": recorded quirk, compared with the model only
+	}
+	want2 := c19Spec(want, c19Lookup(named)).String()
+	if got := out.hash.String(); got != want2 {
+		return fmt.Sprintf("HashDir(%q, %q) over %q = %s, documented formula gives %s", out.dirArg, prefix, c19Names(t), got, want2)
 	}
 	return ""
 }
@@ -529,7 +604,7 @@ func c19HashZip(z []c19E) string {
 }
 
 // A zip whose entries are prefix/rel, extracted under dir, must hash like HashDir(dir, prefix).
-func c19ZipDir(prefix string, t []c19E) string {
+func c19ZipDir(spec, prefix string, t []c19E) string {
 	z := make([]c19E, len(t))
 	for i, e := range t {
 		z[i] = c19E{prefix + "/" + e.N, e.C, 0}
@@ -572,17 +647,24 @@ func c19ZipDir(prefix string, t []c19E) string {
 	zr.Close()
 	os.MkdirAll(dir, 0o755)
 	var hz, hd wire.Val
-	p, _ := hx.Guard(func() {
-		s, err := dirhash.HashZip(zp, dirhash.Hash1)
-		hz = c19Project(s, err)
-		s, err = dirhash.HashDir(dir, prefix, dirhash.Hash1)
-		hd = c19Project(s, err)
-	})
+	dirArg := ""
+	p := false
+	if err := c19InDir(outer, "x", spec, func(d string) {
+		dirArg = d
+		p, _ = hx.Guard(func() {
+			s, err := dirhash.HashZip(zp, dirhash.Hash1)
+			hz = c19Project(s, err)
+			s, err = dirhash.HashDir(d, prefix, dirhash.Hash1)
+			hd = c19Project(s, err)
+		})
+	}); err != nil {
+		return ""
+	}
 	if p {
 		return "panic"
 	}
 	if hz.String() != hd.String() {
-		return fmt.Sprintf("HashZip = %s but HashDir of the extraction under %q = %s (files %q)", hz, prefix, hd, c19Names(t))
+		return fmt.Sprintf("HashZip = %s but HashDir(%q, %q) of the extraction = %s (files %q)", hz, dirArg, prefix, hd, c19Names(t))
 	}
 	if spec := c19Spec(c19Names(z), c19Lookup(z)).String(); hz.String() != spec {
 		return fmt.Sprintf("HashZip = %s, documented formula gives %s (names %q)", hz, spec, c19Names(z))
@@ -593,7 +675,7 @@ func c19ZipDir(prefix string, t []c19E) string {
 // ---------------------------------------------------------------------------------------
 // generators
 
-var c19Words = []string{"a", "b", "ab", "abc", "x", "go.mod", "main.go", "LICENSE", "README.md", "x_test.go", "doc", "pkg", "cmd",
+var c19Words = []string{".gitignore", ".env", "env", ".github", "a", "b", "ab", "abc", "x", "go.mod", "main.go", "LICENSE", "README.md", "x_test.go", "doc", "pkg", "cmd",
 	"internal", "v2", "é", "日本", "naïve.txt", "a b", "a  b", " ", "  ", "  x", "x  ", "ß.go", "\u00a0", "\xff\xfe", "a\\b", "*", "a:b",
 	".x", "..x", "...", "x.", ".hidden", "-", "~", "#", "A", "B", "a.b", "a-b", "0", "00", "deadbeef", "\t", "a\rb", "\x01", "\x7f"}
 
@@ -1071,23 +1153,28 @@ func runC19(c *hx.Ctx) {
 				t = t2
 			}
 		}
+		spec := c19DirSpec(r, true)
+		if spec != "abs" || r.Intn(3) == 0 {
+			t = c19DotFiles(r, t)
+		}
 		c.Count("hashdir-prefix:" + pk)
-		out, err := c19RunDir(prefix, t)
+		c.Count("hashdir-dir:" + spec)
+		out, err := c19RunDir(spec, prefix, t)
 		if err != nil {
 			c.Count("hashdir-tree:not-creatable")
 			continue
 		}
-		arg := wire.L(wire.S(prefix), c19EntriesVal(t))
+		arg := wire.L(wire.S(out.dirArg), wire.S(prefix), c19EntriesVal(t))
 		c.Case("HashDir", arg, out.hash)
 		if out.filesOK {
 			c.Case("DirFiles", arg, wire.Strs(out.files))
 		}
 		c.Count("hashdir-result:" + kindOf(out.hash))
 		nontrivial(t, out.hash)
-		msg := c19HashDir(prefix, t)
-		c.Check("hashdir-naming+formula", msg == "", "", c19In{Op: "hashdir", Prefix: hex.EncodeToString([]byte(prefix)), Es: c19ToJ(t)}, msg)
+		msg := c19HashDir(spec, prefix, t)
+		c.Check("hashdir-naming+formula", msg == "", "", c19In{Op: "hashdir", Dir: spec, Prefix: hex.EncodeToString([]byte(prefix)), Es: c19ToJ(t)}, msg)
 		if i%97 == 0 {
-			c.Sample(fmt.Sprintf("HashDir(%q over %q) = %s", prefix, c19Names(t), out.hash))
+			c.Sample(fmt.Sprintf("HashDir(%q, %q over %q) = %s", out.dirArg, prefix, c19Names(t), out.hash))
 		}
 	}
 
@@ -1116,9 +1203,13 @@ func runC19(c *hx.Ctx) {
 	for i := 0; i < c.N(500); i++ {
 		t := c19Tree(r, false)
 		prefix := pickStr(r, "example.com/m@v1.2.3", "m@v1.0.0", "p", "a b", "é/x", "golang.org/x/mod@v0.1.0", "a/b")
-		c.Count("zipdir")
-		msg := c19ZipDir(prefix, t)
-		c.Check("hashzip-equals-hashdir", msg == "", "", c19In{Op: "zipdir", Prefix: hex.EncodeToString([]byte(prefix)), Es: c19ToJ(t)}, msg)
+		spec := c19DirSpec(r, false)
+		if spec != "abs" {
+			t = c19DotFiles(r, t)
+		}
+		c.Count("zipdir-dir:" + spec)
+		msg := c19ZipDir(spec, prefix, t)
+		c.Check("hashzip-equals-hashdir", msg == "", "", c19In{Op: "zipdir", Dir: spec, Prefix: hex.EncodeToString([]byte(prefix)), Es: c19ToJ(t)}, msg)
 	}
 
 	// 7. the path arithmetic of DirFiles and the %x of the summary, without hashing
@@ -1138,6 +1229,23 @@ func runC19(c *hx.Ctx) {
 		c.Case("Hex", wire.Bytes(b), wire.S(fmt.Sprintf("%x", b)))
 	}
 	c19ModuleZips(c)
+}
+
+// c19DotFiles adds top-level dot files / dot directories (and their dot-less twins) to a
+// tree, keeping it conflict-free.
+func c19DotFiles(r *rand.Rand, t []c19E) []c19E {
+	cands := []string{".gitignore", ".github/x", ".env", "env", ".x", "x", "..y", ".y", "...", ".github/workflows/ci.yml", "gitignore", ".a/.b"}
+	m := 1 + r.Intn(3)
+	for j := 0; j < m; j++ {
+		t2 := append(append([]c19E(nil), t...), c19E{N: cands[r.Intn(len(cands))], C: c19Content(r)})
+		if r.Intn(3) == 0 {
+			t2 = append(t2, c19E{N: ".env", C: c19Content(r)}, c19E{N: "env", C: c19Content(r)})
+		}
+		if c19TreeOK(t2) {
+			t = t2
+		}
+	}
+	return t
 }
 
 func c19TreeOK(t []c19E) bool {
@@ -1189,13 +1297,13 @@ func replayC19(raw json.RawMessage) (bool, string) {
 	case "near":
 		msg = c19Near(es, es2)
 	case "hashdir":
-		msg = c19HashDir(prefix, es)
+		msg = c19HashDir(in.Dir, prefix, es)
 	case "hashzip":
 		msg = c19HashZip(es)
 	case "zipdir":
-		msg = c19ZipDir(prefix, es)
+		msg = c19ZipDir(in.Dir, prefix, es)
 	case "modzip":
-		msg = c19ModZip(prefix, es)
+		msg = c19ModZip(in.Dir, prefix, es)
 	default:
 		return false, "unknown op " + in.Op
 	}
@@ -1231,7 +1339,7 @@ var c19ModVersions = []module.Version{
 	{Path: "example.com/Big/M", Version: "v0.0.0-20200101000000-abcdef123456"},
 }
 
-var c19ModWords = []string{"a", "b", "go.mod", "main.go", "LICENSE", "README.md", "x_test.go", "doc", "pkg", "cmd", "internal",
+var c19ModWords = []string{".gitignore", ".env", "env", ".github", "gitignore", "a", "b", "go.mod", "main.go", "LICENSE", "README.md", "x_test.go", "doc", "pkg", "cmd", "internal",
 	"v2", "é", "日本", "a b", "ß.go", ".x", "..x", "x..y", ".hidden", "-", "~", "#", "A1", "B2", "a.b", "a-b", "0", "deadbeef", "testdata", "vendor.go", "a  b", "=", "@", "+", "%"}
 
 func c19ModFiles(r *rand.Rand) []c19E {
@@ -1262,7 +1370,7 @@ func c19ModFiles(r *rand.Rand) []c19E {
 
 // c19ModZip: prefix is "path@version"; t are the module's files (relative names).
 // Create the module zip with the zip package, hash it, Unzip it, hash the directory.
-func c19ModZip(prefix string, t []c19E) string {
+func c19ModZip(spec, prefix string, t []c19E) string {
 	at := strings.LastIndex(prefix, "@")
 	if at < 0 {
 		return "bad replay prefix"
@@ -1284,22 +1392,28 @@ func c19ModZip(prefix string, t []c19E) string {
 	if err != nil {
 		return "skip: " + err.Error()
 	}
-	dir := filepath.Join(outer, "unz")
-	if err := modzip.Unzip(dir, m, zp); err != nil {
+	if err := modzip.Unzip(filepath.Join(outer, "unz"), m, zp); err != nil {
 		return "skip: unzip: " + err.Error()
 	}
 	var hz, hd wire.Val
-	p, _ := hx.Guard(func() {
-		s, err := dirhash.HashZip(zp, dirhash.Hash1)
-		hz = c19Project(s, err)
-		s, err = dirhash.HashDir(dir, prefix, dirhash.Hash1)
-		hd = c19Project(s, err)
-	})
+	dirArg := ""
+	p := false
+	if err := c19InDir(outer, "unz", spec, func(d string) {
+		dirArg = d
+		p, _ = hx.Guard(func() {
+			s, err := dirhash.HashZip(zp, dirhash.Hash1)
+			hz = c19Project(s, err)
+			s, err = dirhash.HashDir(d, prefix, dirhash.Hash1)
+			hd = c19Project(s, err)
+		})
+	}); err != nil {
+		return ""
+	}
 	if p {
 		return "panic"
 	}
 	if hz.String() != hd.String() {
-		return fmt.Sprintf("module zip %s: HashZip = %s but HashDir after Unzip = %s (files %q)", prefix, hz, hd, c19Names(t))
+		return fmt.Sprintf("module zip %s: HashZip = %s but HashDir(%q) after Unzip = %s (files %q)", prefix, hz, dirArg, hd, c19Names(t))
 	}
 	// the archive's entries as archive/zip reads them (zip.Create omits files of nested
 	// modules and the like; which files it keeps is not this property's business)
@@ -1356,13 +1470,21 @@ func c19ModuleZips(c *hx.Ctx) {
 			}
 			c.Count("modzip-files:gen.ValidModuleFileList")
 		}
-		msg := c19ModZip(prefix, t)
+		spec := c19DirSpec(r, false)
+		if spec != "abs" && r.Intn(2) == 0 {
+			t = append(t, c19E{N: pickStr(r, ".gitignore", ".github/x.yml", ".env", ".x/y.go"), C: c19Content(r)})
+			if r.Intn(2) == 0 {
+				t = append(t, c19E{N: "env", C: c19Content(r)}, c19E{N: ".env.go", C: c19Content(r)})
+			}
+		}
+		msg := c19ModZip(spec, prefix, t)
 		if strings.HasPrefix(msg, "skip: ") {
 			c.Count("modzip:refused-by-zip.Create")
 			continue
 		}
 		c.Count("modzip:created")
-		c.Check("modzip-hashzip-equals-hashdir-after-unzip", msg == "", "", c19In{Op: "modzip", Prefix: hex.EncodeToString([]byte(prefix)), Es: c19ToJ(t)}, msg)
+		c.Count("modzip-dir:" + spec)
+		c.Check("modzip-hashzip-equals-hashdir-after-unzip", msg == "", "", c19In{Op: "modzip", Dir: spec, Prefix: hex.EncodeToString([]byte(prefix)), Es: c19ToJ(t)}, msg)
 		// the same file set through the model (HashZip on the abstract archive)
 		if i%2 == 0 {
 			z := make([]c19E, len(t))
